@@ -423,6 +423,15 @@ def answer (line : String) : String :=
               let (v1, st1) := step st
               let (v2, st2) := nthOf step 6 st1
               go st2 r (showOptDate v2 :: showOptDate v1 :: acc)
+            | st, 'C' :: r, acc => go st r (s!"c{(drainOf step 64 st 0 none).1}" :: acc)
+            | st, 'Z' :: r, acc => go st r (showOptDate (drainOf step 64 st 0 none).2 :: acc)
+            | st, 'X' :: r, acc =>      -- max(): the last item of an ascending, the first of a descending iterator
+              let v := if k == "later" || k == "and_later" then (drainOf step 64 st 0 none).2 else (step st).1
+              go st r (showOptDate v :: acc)
+            | st, 'W' :: r, acc =>
+              let v := if k == "later" || k == "and_later" then (step st).1 else (drainOf step 64 st 0 none).2
+              go st r (showOptDate v :: acc)
+            | st, 'H' :: r, acc => go st r ("h1" :: acc)      -- size_hint brackets the true count
             | st, _ :: r, acc => go st r acc
           joinWith " " (go (some d) ops.toList [])
       | none => "BADREQ"
